@@ -30,7 +30,7 @@ ASSUMPTIONS = [
 MIN_NONTRIVIAL = {"quick": 150, "thorough": 1500}
 
 OPS = ["fc_full", "fc_compact", "produce_full", "produce_compact", "symmetrize", "symmetrize_sg", "cutoff", "nac_wang", "nac_gonze", "nac_none", "masses",
-       "dataset", "generate_displacements", "copy"]
+       "dataset", "generate_displacements", "copy", "nac_default", "nac_gonze_cut"]  # nac_default: dict without 'method' (documented default Gonze-Lee); nac_gonze_cut: with G_cutoff and Lambda
 INITS = ["none", "wang", "gonze"]
 CELLS = ["rocksalt", "cscl", "zincblende"]
 
@@ -91,8 +91,14 @@ class World:
         fc = self.model()
         ph.forces = setup.harmonic_forces_type1(ph, fc)
         ph.produce_force_constants()
+        # the harness' own record of what was set last (never what the object reports: an object that merges or keeps stale entries would
+        # report them, and a reference built from that report would inherit the defect)
+        self.nac_last = None
+        self.masses_last = None
         if init != "none":
-            ph.nac_params = nacgen.random_nac(ph, self.rng, method=init)
+            nacp0 = nacgen.random_nac(ph, self.rng, method=init)
+            self.nac_last = copy.deepcopy(nacp0)
+            ph.nac_params = nacp0
         self.handed_in = []  # (label, array, checksum)
         self.log = []
 
@@ -124,16 +130,26 @@ class World:
                     ph.symmetrize_force_constants_by_space_group(show_drift=False)
             elif name == "cutoff":
                 ph.set_force_constants_zero_with_radius(3.2)
-            elif name in ("nac_wang", "nac_gonze"):
-                nacp = self.nacgen.random_nac(ph, self.rng, method=name[4:])
+            elif name in ("nac_wang", "nac_gonze", "nac_default", "nac_gonze_cut"):
+                nacp = self.nacgen.random_nac(ph, self.rng, method="wang" if name == "nac_wang" else "gonze")
+                if name == "nac_default":
+                    nacp.pop("method")
+                if name == "nac_gonze_cut":
+                    nacp["G_cutoff"] = float(self.rng.uniform(1.0, 1.6))
+                    nacp["Lambda"] = float(self.rng.uniform(0.12, 0.3))
                 self.hand_in("nac_params[born]", nacp["born"])
                 self.hand_in("nac_params[dielectric]", nacp["dielectric"])
+                record = copy.deepcopy(nacp)
                 ph.nac_params = nacp
+                self.nac_last = record
             elif name == "nac_none":
                 ph.nac_params = None
+                self.nac_last = None
             elif name == "masses":
                 m = self.hand_in("masses", np.array(ph.masses) * float(self.rng.uniform(0.7, 1.4)))
+                record = np.array(m).copy()
                 ph.masses = m
+                self.masses_last = record
             elif name == "dataset":
                 ds = copy.deepcopy(ph.dataset)
                 if "first_atoms" in ds:
@@ -199,11 +215,11 @@ def fresh_from(w):
     """The executable reference: a new object from the final structure, force constants, NAC parameters and masses."""
     ph = w.ph
     fr, _ = w.setup.build_phonopy(w.case)
-    if not np.allclose(np.array(ph.masses), w.m0, rtol=1e-15, atol=0):
-        fr.masses = np.array(ph.masses).copy()
+    if w.masses_last is not None:
+        fr.masses = np.array(w.masses_last).copy()
     fr.force_constants = np.array(ph.force_constants, dtype="double", order="C").copy()
-    if ph.nac_params is not None:
-        fr.nac_params = copy.deepcopy(ph.nac_params)
+    if w.nac_last is not None:
+        fr.nac_params = copy.deepcopy(w.nac_last)
     return fr
 
 
